@@ -37,7 +37,7 @@ LEVEL_TEXT = ("Random cells (orthogonal, tilted, rotated, shifted origin, exact 
               "periodicity settings per case, point sets of all broadcast shapes and input spellings through the five public "
               "entry points; true nearest image decided by an exhaustive lattice search with proven radius.")
 TECHNIQUE = "integrality of (d-d0).V^-1, 27-candidate minimum, exhaustive nearest-image search, atom-by-atom dvect comparison"
-WALL = {'quick': 70, 'thorough': 560}
+WALL = {'quick': 60, 'thorough': 560}
 
 EPS = 2.220446049250313e-16
 PBCS = gens.PBCS
